@@ -457,8 +457,9 @@ func hardBeforeLenient(h, l limitSite) bool {
 	// level where the chains differ (both instructions are then in the same function)
 	// (the hard check counts from where it is evaluated, the lenient one from where it refuses)
 	ch, cl := h.chain(), l.chain()
+	var refusal ssa.Instruction
 	if l.at != nil && len(cl) > 0 {
-		cl[len(cl)-1] = l.at
+		refusal = l.at
 	}
 	k := 0
 	for k < len(ch) && k < len(cl) && ch[k] == cl[k] {
@@ -476,7 +477,15 @@ func hardBeforeLenient(h, l limitSite) bool {
 	if ah.Block() == al.Block() {
 		return idx(ah) < idx(al)
 	}
-	return ah.Block().Dominates(al.Block()) || postDominatedSkip(ah.Block(), al.Block())
+	if ah.Block().Dominates(al.Block()) || postDominatedSkip(ah.Block(), al.Block()) {
+		return true
+	}
+	// the lenient comparison may be evaluated first as long as the hard one is evaluated before
+	// the lenient refusal is issued (`if bytes <= max {return nil}; if runes > max {hard}; lenient`)
+	if refusal != nil && k == len(cl)-1 && refusal.Block() != al.Block() {
+		return ah.Block().Dominates(refusal.Block())
+	}
+	return false
 }
 
 // chain: the call sites through which the site is reached, outermost first, then the site.
